@@ -178,6 +178,30 @@ inline void apply_op(Scenario& s, const Corpus& corpus, const std::vector<std::s
       sim::Rng r((uint64_t)num(4));
       for (auto& c : ins) c = kind == "nul" ? '\0' : kind == "cr" ? '\r' : kind == "nl" ? '\n' : kind == "space" ? ' ' : kind == "hash" ? '#' : (char)r.below(256);
       if (d.size() + n <= 70000) { d.insert(p, ins); damaged("insert_bytes"); }
+   } else if (op == "dropblock" || op == "emptyblock" || op == "lastentryonly") {
+      // the K-th block of the document removed / reduced to its definition line / reduced to its definition and last
+      // data line: which blocks and entries are present is what the setup code's "was it given?" logic depends on
+      auto ls = line_starts(d);
+      std::vector<size_t> defs; // indices into ls of block definition lines
+      for (size_t i = 0; i < ls.size(); ++i) { auto tk = tokens_of(d, ls[i], line_end(d, ls[i])); if (tk.size() >= 2) { std::string f = d.substr(tk[0].first, tk[0].second - tk[0].first); for (auto& c : f) c = (char)std::tolower((unsigned char)c); if (f == "block" || f == "decay") defs.push_back(i); } }
+      if (defs.empty()) return;
+      const size_t k = (size_t)(((num(1) % (long long)defs.size()) + (long long)defs.size()) % (long long)defs.size());
+      const size_t b = ls[defs[k]], e = (k + 1 < defs.size()) ? ls[defs[k + 1]] : d.size();
+      const size_t hdr_end = std::min(e, line_end(d, b) + 1);
+      if (op == "dropblock") { d.erase(b, e - b); damaged("block_removed"); }
+      else if (op == "emptyblock") { if (e > hdr_end) { d.erase(hdr_end, e - hdr_end); damaged("block_emptied"); } }
+      else { // keep header + last non-empty line
+         size_t last = e; while (last > hdr_end && (d[last - 1] == '\n')) --last; size_t lb = d.rfind('\n', last ? last - 1 : 0); lb = (lb == std::string::npos || lb + 1 < hdr_end) ? hdr_end : lb + 1;
+         if (lb > hdr_end) { d.erase(hdr_end, lb - hdr_end); damaged("block_reduced_to_last_entry"); }
+      }
+   } else if (op == "manyscales") {
+      // N blocks of the same name at N different scales appended (Q= selection code has to look at all of them)
+      const size_t n = (size_t)std::min<long long>(std::max<long long>(1, num(1)), 3000);
+      static const char* const names[] = {"HMIX", "MSOFT", "AE", "AU", "AD"};
+      const char* nm = names[((num(2) % 5) + 5) % 5];
+      if (!d.empty() && d.back() != '\n') d += '\n';
+      for (size_t i = 0; i < n && d.size() < 69000; ++i) { char b[96]; std::snprintf(b, sizeof b, "Block %s Q= %.8e\n   1   %zu.5\n", nm, 100.0 + 3.0 * (double)i, i); d += b; }
+      damaged("many_blocks_at_different_scales");
    } else if (op == "bulk") {
       // bulk LINE N: the chosen line repeated N times (thousands of entries with the same key / of identical block
       // definitions: what quadratic duplicate handling or per-line bookkeeping would choke on)
@@ -438,7 +462,11 @@ inline std::vector<std::string> gen_plan(const Corpus& corpus, uint64_t seed, st
       }
    };
    auto struct_op = [&]() -> std::string {
-      switch (r.below(16)) {
+      switch (r.below(20)) {
+      case 16: return "dropblock " + std::to_string(r.below(30));
+      case 17: return "emptyblock " + std::to_string(r.below(30));
+      case 18: return "lastentryonly " + std::to_string(r.below(30));
+      case 19: return "manyscales " + std::to_string(r.chance(0.5) ? 1 + r.below(20) : 500 + r.below(2500)) + " " + std::to_string(r.below(5));
       case 15: return "bulk " + std::to_string(r.below(400)) + " " + std::to_string(r.chance(0.5) ? 1 + r.below(200) : 1000 + r.below(8000));
       case 12: case 13: case 14: return "scale " + std::to_string(r.below(400)) + " " + std::to_string(1 + r.below(3)) + " " + std::to_string(r.below(N_SCALE));
       case 10: return "idx " + std::to_string(r.below(400)) + " " + std::to_string(r.below(2)) + " " + std::to_string(r.below(15));
